@@ -19,6 +19,11 @@ def topResume : EinoV.C11.ResumeFacts :=
 /-- the sub-graph resume branch of `runner.run` (checkpoint handed down by the parent) -/
 def subResume : EinoV.C11.ResumeFacts :=
   { saves := true, restoresFirst := true, setAlways := true, oneHolder := true }
+/-- the interrupt handlers save the state only for a graph that declares state: the value the
+    property needs (a nested graph without state keeps working on the enclosing state after a
+    resume).  NOT tied by `facts_match`: on a tree where the extracted fact is `false` the
+    harness reports the finding `C11:resume:stateless-nested-state-copy`. -/
+def cpSavesOwnStateOnly : Bool := true
 /-- `internalState{…}` literals in package compose: `runCtx` + one per resume branch -/
 def holderAllocSites : Nat := 3
 end EinoV.Expected.C11
